@@ -26,19 +26,15 @@ import C01_gen
 LEVEL = "proof"
 CID = "C01"
 
-# Findings that are open on the current tree.  An origin that provokes one on purpose is only
-# generated when its flag is True; an accidental hit (token mutants, noise) is recognised by
-# its sanitizer signature and reported as KNOWN-FINDING instead of VIOLATION.
-KNOWN_OPEN = {
-    "F5": {"on": False,
-           "what": "F-C01-c nested catch-in-catch and switch-in-switch cost 2^depth compile time (EmitCatch / EmitSwitch emit the body once into a nested "
-                   "counting emitter and once for real, at every level); depth 40 is inside the property's range: hang",
-           "sig": r"$^"},
-}
+# Findings that are open on the current tree: name -> {"on": generate the provoking origin on purpose, "what": text,
+# "sig": regex over the sanitizer report}.  An accidental hit (token mutants, noise) whose report matches "sig" is reported
+# as KNOWN-FINDING instead of VIOLATION.  Empty: every defect this unit found has been repaired (list below).
+KNOWN_OPEN = {}
 # defects found by this unit and repaired since (their origins are always generated now):
 #   stray top-level `case` / labels in a catch block overflowed the compile arena (fix 5d577e5); try/catch nested in a catch block or
 #   a switch body bound a null reference (fix 0d80098); GetProgramScript(name) returned a failed script that was then run (fix 4bf1e6a);
-#   a token longer than flex's 16384-byte buffer spun forever in yy_get_next_buffer (fix ddfcf5e: ParseError)
+#   a token longer than flex's 16384-byte buffer spun forever in yy_get_next_buffer (fix ddfcf5e: ParseError);
+#   catch-in-catch / switch-in-switch nesting cost 2^depth compile time (fix 76f56ed: > 20 s from depth 25 before, 0.1 s at depth 40 after)
 
 ALLOWED = re.compile(r"^(ok|parse|compile:[A-Za-z]+)$")
 
@@ -80,9 +76,10 @@ class XCase:
        ('S', name, src)            src = ('A', tag) | ('J', class) | ('X', bytes)   X = arbitrary text (oracle from impl)
        ('C', name, rc, src) ('F', name, rc) ('R', name) ('T', name) ('E', name) ('K', tokens)"""
 
-    def __init__(self, cid, ops, origin, inputs=None):
+    def __init__(self, cid, ops, origin, inputs=None, dev=1):
         self.id, self.ops, self.origin = str(cid), ops, origin
         self.inputs = inputs or []          # the arbitrary texts in it (for blame)
+        self.dev = dev                      # developer mode of the context
 
     @staticmethod
     def src_bytes(src):
@@ -93,7 +90,7 @@ class XCase:
         return src[1]
 
     def impl_text(self):
-        out = ["case %s" % self.id]
+        out = ["case %s dev=%d" % (self.id, self.dev)]
         for o in self.ops:
             if o[0] == "S":
                 out.append("S %s %s" % (o[1], hx(self.src_bytes(o[2]))))
@@ -103,6 +100,8 @@ class XCase:
                 out.append("F %s %d" % (o[1], o[2]))
             elif o[0] in "RTE":
                 out.append("%s %s" % (o[0], o[1]))
+            elif o[0] == "Z":
+                out.append("Z")
             elif o[0] == "K":
                 out.append("K " + " ".join(o[1]))
         out.append("end")
@@ -130,6 +129,8 @@ class XCase:
                 out.append("F %s %d" % (o[1], o[2]))
             elif o[0] in "RTE":
                 out.append("%s %s" % (o[0], o[1]))
+            elif o[0] == "Z":
+                out.append("Z")
             elif o[0] == "K":
                 out.append("K " + " ".join(o[1]))
         out.append("end")
@@ -142,7 +143,7 @@ class XCase:
                 if isinstance(x, tuple):
                     o[i] = [x[0], x[1].hex() if isinstance(x[1], bytes) else x[1]]
             return o
-        return {"id": self.id, "origin": self.origin, "ops": [j(o) for o in self.ops]}
+        return {"id": self.id, "origin": self.origin, "dev": self.dev, "ops": [j(o) for o in self.ops]}
 
     @staticmethod
     def from_json(d):
@@ -155,7 +156,7 @@ class XCase:
             if o[0] == "K":
                 o[1] = list(o[1])
             ops.append(tuple(o))
-        return XCase(d.get("id", "r"), ops, d.get("origin", "replay"))
+        return XCase(d.get("id", "r"), ops, d.get("origin", "replay"), dev=d.get("dev", 1))
 
 
 def impl_class(line):
@@ -317,9 +318,10 @@ class ProgGen:
         if k < 0.91:
             return self.switch(d - 1, ctx)
         if k < 0.96:
-            if incatch and not self.flags["F5"]:
-                return self.block(d - 1, ctx)                          # catch-in-catch: 2^depth (finding F5)
-            return ["try"] + self.block(d - 1, ctx) + ["catch"] + self.block(d - 1, (False, False, True))
+            tb = self.block(d - 1, ctx)
+            if self.r.random() < 0.9:
+                tb = tb[:-1]                 # `} catch` on one line (a newline before catch is a parse error)
+            return ["try"] + tb + ["catch"] + self.block(d - 1, (inl, insw, True))
         if k < 0.98 and not insw:
             self.nlabel += 1
             return ["lbl%d" % self.nlabel] + ([self.var()] if r.random() < 0.3 else []) + [":", NL]
@@ -449,7 +451,7 @@ def targeted_programs(tier, flags):
     add("labels-in-catch-40", "main:\ntry {\n} catch {\n" + "".join("l%d:\n" % i for i in range(40)) + "}\nend\n")
     add("labels-in-two-catches", "main:\ntry {\n} catch {\na:\nb:\n}\ntry {\n} catch {\nc:\nd:\ne:\n}\nend\n")
     add("try-in-switch", "main:\nswitch(1) {\ncase 1:\ntry { } catch {\n}\n}\nend")
-    for dpt in (2, 3, 6) + ((12, 40) if flags["F5"] else ()):
+    for dpt in (2, 3, 6, 12, 25, 40):
         add("catch-in-catch-%d" % dpt, nest("catch", dpt))
         add("switch-in-switch-%d" % dpt, nest("switch", dpt))
     return out
@@ -500,6 +502,126 @@ def long_tokens():
             if not (kind == "newlines" and n <= TOKEN_OK):      # the run of newlines also holds the one after main:
                 EXPECT[name] = exp
             out.append((name, b))
+    return out
+
+
+RING_SHAPES = [
+    'if (!local.x) { println "n" }\n',
+    'while (!local.x) { local.x = 1 }\n',
+    'do { local.x = 1 } while (!local.x)\n',
+    'local.y = !!local.x\n',
+    'if (local.x && !local.x) {}\n',
+    'local.z = -5\n',
+    'local.z = -local.x\n',
+    'if (local.x == 0) {}\n',
+    'local.q = 1\nprintln local.q\n',
+    'for (local.i = 0; !local.x; local.i++) { local.x = 1 }\n',
+    'if (local.x || !local.y) { local.z = -1.5 } else { local.z = !0 }\n',
+]
+
+
+def ring_programs():
+    """the peephole window of ScriptEmitter is a 100-slot ring (prev_opcodes, prev_opcode_pos): every peephole-sensitive
+    shape at every ring offset.  A filler `local.aI = I` records 2 opcodes, `local.aI = -local.b` records 3; N = 0..210
+    fillers with 0 or 1 odd filler in front sweep every offset mod 100 twice; the shapes follow (rotated by N), plainly,
+    inside a switch body and inside a catch block (the sub-emitters start a fresh ring at the block)."""
+    out = []
+    for n in range(0, 211):
+        for odd in (0, 1):
+            fill = ("local.o = -local.b\n" if odd else "") + "".join("local.a%d = %d\n" % (i, i) for i in range(n))
+            k = n % len(RING_SHAPES)
+            shapes = "".join(RING_SHAPES[k:] + RING_SHAPES[:k])
+            body = fill + shapes
+            for ctx, src in (("plain", "main:\nlocal.x = 0\n" + body + "end\n"),
+                             ("switch", "main:\nlocal.x = 0\nswitch (local.x) {\ncase 0:\n" + body + "break\n}\nend\n"),
+                             ("catch", "main:\nlocal.x = 0\ntry {\nlocal.x = 0\n} catch {\n" + body + "}\nend\n")):
+                name = "ring-%s-%d-%d" % (ctx, n, odd)
+                EXPECT[name] = "ok"
+                out.append((name, src.encode()))
+    return out
+
+
+NUL_SEEDS = [
+    b'main:\nprintln "abc"\nend\n',
+    b'main:\nlocal.value = "a\\nb" + "q\\"q"\nend\n',
+    b'main:\n// comment x\n/* block\ncomment */\nlocal.a3 = 12 + 3.5e+2\nend\n',
+    b'main:\nlocal."fld" = $targ.size\nprintln local.arr[1] \\\n 2\nend\n',
+    b'lbl local.p:\nif (local.p == -1) { thread lbl 7 }\nswitch (local.p) { case 1: break\nword: break }\nend\n',
+    b'x',
+    b'"s"',
+    b'\n',
+    b'',
+]
+
+
+def nul_programs(rng):
+    """a 0 byte (and runs of 0 bytes) inserted at / replacing EVERY position of each seed; the other control and high bytes at
+    sampled positions (the lexer is 8-bit flex over a NUL-terminated buffer: strlen-style code breaks on embedded NULs)"""
+    out = []
+    for si, seed in enumerate(NUL_SEEDS):
+        for pos in range(len(seed) + 1):
+            out.append(("nul-ins-%d-%d" % (si, pos), seed[:pos] + b"\0" + seed[pos:]))
+            if pos < len(seed):
+                out.append(("nul-rep-%d-%d" % (si, pos), seed[:pos] + b"\0" + seed[pos + 1:]))
+            if pos % 3 == 0:
+                out.append(("nul-run2-%d-%d" % (si, pos), seed[:pos] + b"\0\0" + seed[pos:]))
+            if pos % 7 == 0:
+                out.append(("nul-run9-%d-%d" % (si, pos), seed[:pos] + b"\0" * 9 + seed[pos:]))
+        others = list(range(1, 0x20)) + list(range(0x7f, 0x100))
+        for k in range(60 if seed else 0):
+            pos = rng.randrange(len(seed) + 1)
+            c = bytes([rng.choice(others)])
+            if rng.random() < 0.5:
+                out.append(("ctl-ins-%d-%d" % (si, k), seed[:pos] + c + seed[pos:]))
+            else:
+                out.append(("ctl-rep-%d-%d" % (si, k), seed[:pos] + c + seed[pos + 1:]))
+    out.append(("nul-only-16", b"\0" * 16))
+    out.append(("nul-string-57b6014", b'main:\nprintln "\0"\nend\n'))
+    out.append(("nul-string-mid", b'main:\nprintln "ab\0cd"\nend\n'))
+    out.append(("nul-string-last", b'main:\nprintln "ab\0"\nend\n'))
+    out.append(("nul-field-string", b'main:\nlocal."\0" = 1\nlocal."a\0b" = 2\nend\n'))
+    out.append(("nul-after-backslash", b'main:\nprintln "a\\\0b"\nend\n'))
+    out.append(("nul-ident-tail", b'main:\nlocal.ab\0 = 1\nprintl\0n 1\nend\n'))
+    return out
+
+
+def late_reject_programs():
+    """texts the MEASURING pass accepts and the EMITTING pass rejects: CompileException::DuplicateLabel is the only error
+    that depends on the manager (ScriptCountManager::AddLabel/AddCaseLabel always succeed): the script object then holds
+    an allocated arena, program buffer and (developer mode) source map when Load's catch ladder closes it"""
+    out = []
+
+    def add(name, src, expect="compile:DuplicateLabel"):
+        if expect:
+            EXPECT[name] = expect
+        out.append((name, src.encode()))
+    body = 'local.a = 1\nprintln "x"\n'
+    for n in range(0, 21):
+        mid = "".join("l%d:\n%s" % (i, body) for i in range(n))
+        add("dup-label-top-%d" % n, "main:\n" + body + "dup:\n" + body + mid + "dup:\n" + body + "end\n")
+        add("dup-label-catch-%d" % n, "main:\ntry {\n" + body + "} catch {\ndup:\n" + body + mid + "dup:\n" + body + "}\nend\n")
+        add("dup-case-int-%d" % n, "main:\nswitch (local.a) {\ncase 7:\n" + body + "".join("case %d:\n%sbreak\n" % (100 + i, body) for i in range(n)) + "case 7:\nbreak\n}\nend\n")
+    add("dup-main", "main:\nend\nmain:\nend\n")
+    add("dup-label-first-last", "a:\na:\n")
+    add("dup-private-label", "main:\n-p:\n" + body + "-p:\nend\n")
+    add("dup-plus-label", "main:\n+p:\n" + body + "p:\nend\n")
+    add("dup-private-public", "main:\n-p:\n" + body + "p:\nend\n", None)
+    add("dup-label-with-params", "main:\nf local.a local.b:\nend\nf local.c:\nend\n")
+    add("dup-case-string", 'main:\nswitch (local.a) {\ncase "s":\n' + body + 'break\ncase "s":\nbreak\n}\nend\n')
+    add("dup-case-word", "main:\nswitch (local.a) {\nw:\n" + body + "break\nw:\nbreak\n}\nend\n")
+    add("dup-case-word-string", 'main:\nswitch (local.a) {\nw:\n' + body + 'break\ncase "w":\nbreak\n}\nend\n')
+    add("dup-case-negative", "main:\nswitch (local.a) {\ncase -1:\n" + body + "break\ncase -1:\nbreak\n}\nend\n")
+    add("dup-case-int-string", 'main:\nswitch (local.a) {\ncase 5:\n' + body + 'break\ncase "5":\nbreak\n}\nend\n')
+    add("dup-case-big", "main:\nswitch (local.a) {\ncase 4294967297:\nbreak\ncase 4294967297:\nbreak\n}\nend\n")
+    add("dup-case-inner", "main:\nswitch (local.a) {\ncase 1:\nswitch (local.b) {\ncase 2:\nbreak\ncase 2:\nbreak\n}\nbreak\n}\nend\n")
+    add("dup-case-outer-after-inner", "main:\nswitch (local.a) {\ncase 1:\nswitch (local.b) {\ncase 1:\nbreak\n}\nbreak\ncase 1:\nbreak\n}\nend\n")
+    add("same-case-inner-outer", "main:\nswitch (local.a) {\ncase 1:\nswitch (local.b) {\ncase 1:\nbreak\n}\nbreak\n}\nend\n", "ok")
+    add("same-label-top-and-catch", "main:\nx:\ntry {\n} catch {\nx:\n}\nend\n", None)
+    add("dup-case-in-catch", "main:\ntry {\n} catch {\nswitch (local.a) {\ncase 1:\nbreak\ncase 1:\nbreak\n}\n}\nend\n")
+    add("dup-label-in-switch-in-loop", "main:\nwhile (local.a) {\nswitch (local.a) {\ncase 1:\ncontinue\ncase 1:\nbreak\n}\n}\nend\n")
+    add("dup-stray-case", "main:\ncase 1:\ncase 1:\nend\n")
+    add("dup-after-long", "main:\n" + "".join("local.v%d = %d\n" % (i, i) for i in range(400)) + "main:\nend\n")
+    add("dup-label-after-deep", nest("catch", 12, "d:\nd:\n"))
     return out
 
 
@@ -596,20 +718,74 @@ def skel_random(rng, d, inloop):
     return t
 
 
-def skel_double_depth(tokens):
-    """deepest nesting of constructs whose body is emitted twice (catch parts and switch bodies): cost 2^that (finding F5)"""
-    stack, best = [], 0
-    for t in tokens:
-        if t == "|":
-            if stack and stack[-1] == "T":
-                stack[-1] = "C"
-        elif t.endswith("("):
-            stack.append(t[0])
-        elif t == ")":
-            if stack:
-                stack.pop()
-        best = max(best, sum(1 for x in stack if x in ("C", "S")))
-    return best
+def skel_parse(tokens):
+    """tokens -> nested lists: ['W', [children]] / ['T', [try], [catch]] / 'b'"""
+    pos = [0]
+
+    def lst():
+        out = []
+        while pos[0] < len(tokens) and tokens[pos[0]] not in (")", "|"):
+            t = tokens[pos[0]]
+            pos[0] += 1
+            if t.endswith("("):
+                a = lst()
+                if t == "T(":
+                    if pos[0] < len(tokens) and tokens[pos[0]] == "|":
+                        pos[0] += 1
+                    b = lst()
+                    out.append(["T", a, b])
+                else:
+                    out.append([t[0], a])
+                if pos[0] < len(tokens) and tokens[pos[0]] == ")":
+                    pos[0] += 1
+            else:
+                out.append(t)
+        return out
+    return lst()
+
+
+def skel_tokens(tree):
+    out = []
+    for x in tree:
+        if isinstance(x, str):
+            out.append(x)
+        elif x[0] == "T":
+            out += ["T("] + skel_tokens(x[1]) + ["|"] + skel_tokens(x[2]) + [")"]
+        else:
+            out += [x[0] + "("] + skel_tokens(x[1]) + [")"]
+    return out
+
+
+def skel_shrink(tokens, fails, max_runs=150):
+    """structure-aware shrinking of a skeleton: drop a statement or replace a construct by its body"""
+    import copy
+    tree = skel_parse(tokens)
+    runs = [0]
+
+    def variants(t):
+        # every tree obtained by one deletion / one hoist, smaller first
+        for i in range(len(t)):
+            yield t[:i] + t[i + 1:]
+        for i, x in enumerate(t):
+            if isinstance(x, list):
+                for body in x[1:]:
+                    yield t[:i] + body + t[i + 1:]
+                for k in range(1, len(x)):
+                    for v in variants(x[k]):
+                        y = copy.deepcopy(x)
+                        y[k] = v
+                        yield t[:i] + [y] + t[i + 1:]
+    changed = True
+    while changed and runs[0] < max_runs:
+        changed = False
+        for v in variants(tree):
+            runs[0] += 1
+            if runs[0] > max_runs:
+                break
+            if fails(skel_tokens(v)):
+                tree, changed = v, True
+                break
+    return skel_tokens(tree)
 
 
 def skel_enumerate(maxlen):
@@ -730,8 +906,6 @@ def gen_cases(tier, seed, flags):
         sk.append((["W("] + skel_random(rng, rng.choice([2, 3, 5]), True) + [")"], "skeleton-random"))
     byo = {}
     for tk, o in sk:
-        if not flags["F5"] and skel_double_depth(tk) > 10:
-            continue
         byo.setdefault(o, []).append(tk)
     for o, lst in byo.items():
         for i in range(0, len(lst), 40):
@@ -743,6 +917,10 @@ def gen_cases(tier, seed, flags):
         texts.append(("targeted", name, b))
     for name, b in NOISE_FIXED + NOISE_F6 + long_tokens():
         texts.append(("noise-fixed", name, b))
+    for name, b in ring_programs():
+        texts.append(("ring-position", name, b))
+    for name, b in nul_programs(random.Random(seed * 7919 + 13)):
+        texts.append(("nul-byte", name, b))
     nprog = 600 if quick else 20000
     seeds = []
     for i in range(nprog):
@@ -766,34 +944,76 @@ def gen_cases(tier, seed, flags):
                 texts.append(("mutant-delete-exhaustive", "d%d_%d" % (si, j), render(tk[:j] + tk[j + 1:]).encode("latin1")))
     for name, b in noise(rng, 300 if quick else 10000):
         texts.append(("noise-random", name, b))
+    for name, b in late_reject_programs():
+        texts.append(("rejected-by-the-emitting-pass", name, b))
     per = 12
     byo = {}
     for o, name, b in texts:
         byo.setdefault(o, []).append((name, b))
+    BOTH = ("targeted", "noise-fixed", "rejected-by-the-emitting-pass", "nul-byte")      # run in both developer modes
+    nth = 0
     for o, lst in byo.items():
         for i in range(0, len(lst), per):
-            cases.append(text_case(cid("t"), lst[i:i + per], o))
+            nth += 1
+            if o in BOTH:
+                cases.append(text_case(cid("t"), lst[i:i + per], o + "/dev1", dev=1))
+                cases.append(text_case(cid("t"), lst[i:i + per], o + "/dev0", dev=0))
+            else:
+                cases.append(text_case(cid("t"), lst[i:i + per], o + "/dev%d" % (nth % 2), dev=nth % 2))
     # corpus: one text per file, raw bytes
     cdir = os.path.join(vlib.VERIF, "corpus", "C01")
     corp = []
     for p in sorted(os.listdir(cdir)) if os.path.isdir(cdir) else []:
-        corp.append((p, open(os.path.join(cdir, p), "rb").read()))
+        if p.endswith(".hist"):
+            cases.insert(0, XCase(cid("c"), parse_hist(open(os.path.join(cdir, p)).read()), "corpus"))
+        else:
+            corp.append((p, open(os.path.join(cdir, p), "rb").read()))
     for i in range(0, len(corp), per):
-        cases.insert(0, text_case(cid("c"), corp[i:i + per], "corpus"))
+        cases.insert(0, text_case(cid("c"), corp[i:i + per], "corpus", dev=1))
+        cases.insert(0, text_case(cid("c"), corp[i:i + per], "corpus", dev=0))
     return cases
 
 
-def text_case(cid, items, origin):
-    """sentinel, then per text: compile it; ask again (stream variant); sentinel runs; a fresh script
-    compiles and runs; the text's own script is run when it was accepted / reported failed otherwise"""
+def parse_hist(text):
+    """corpus history: one op per line in the harness's format; a source is A<tag> or J:<class>"""
+    def src(w):
+        return ("A", int(w[1:])) if w[0] == "A" else ("J", w[2:])
+    ops = []
+    for line in text.splitlines():
+        w = line.split()
+        if not w or w[0].startswith("#"):
+            continue
+        if w[0] == "S":
+            ops.append(("S", w[1], src(w[2])))
+        elif w[0] == "C":
+            ops.append(("C", w[1], int(w[2]), src(w[3])))
+        elif w[0] == "F":
+            ops.append(("F", w[1], int(w[2])))
+        elif w[0] in "RTE":
+            ops.append((w[0], w[1]))
+        elif w[0] == "Z":
+            ops.append(("Z",))
+        elif w[0] == "K":
+            ops.append(("K", w[1:]))
+        else:
+            raise ValueError("corpus history: unknown op %r" % line)
+    return ops
+
+
+def text_case(cid, items, origin, dev=1):
+    """sentinel, then per text: compile it; ask again (stream variant); sentinel runs; a fresh script compiles and runs; the state
+    of the text's own script; then the DESTROYING probes: the same name recompiled (recompile = true) from a valid source and run;
+    at the end of the case Reset(), sentinel compiled and run again; the harness then destroys the context before `end`"""
     ops = [("C", "9000", 0, ("A", SENTINEL_TAG)), ("R", "9000")]
     inputs = []
     for k, (name, b) in enumerate(items):
         x = str(100 + k)
         f = str(200 + k)
-        ops += [("C", x, 0, ("X", b)), ("C", x, 0, ("A", 5000 + k)), ("R", "9000"), ("C", f, 0, ("A", 7000 + k)), ("R", f), ("T", x)]
+        ops += [("C", x, 0, ("X", b)), ("C", x, 0, ("A", 5000 + k)), ("R", "9000"), ("C", f, 0, ("A", 7000 + k)), ("R", f), ("T", x),
+                ("C", x, 1, ("A", 6000 + k)), ("R", x)]
         inputs.append((name, b))
-    return XCase(cid, ops, origin, inputs)
+    ops += [("Z",), ("R", "9000"), ("C", "9000", 0, ("A", SENTINEL_TAG)), ("R", "9000")]
+    return XCase(cid, ops, origin, inputs, dev=dev)
 
 
 # ------------------------------------------------------------------------------ running
@@ -884,8 +1104,8 @@ def ddmin_bytes(b, fails, max_runs=120):
     return b2
 
 
-def single_text_case(b):
-    return text_case("x", [("shrunk", b)], "shrink")
+def single_text_case(b, dev=1):
+    return text_case("x", [("shrunk", b)], "shrink", dev=dev)
 
 
 def evaluate(exe, drv, case):
@@ -913,15 +1133,15 @@ def check(res, tier, seed):
         "per-compilation time bound 20 s (watchdog); developer mode on; Error/Warn/Debug/Output streams attached",
         "theorems: the script table (name -> absent | failed | loaded) and the jump-table discipline over loop skeletons; the outcome (accept/reject) of a source text is an input of the table model",
         "a recorded jump location is abstracted to the ordinal of the jump; counting pass and emitting pass are the same ScriptEmitter code, one model run stands for both",
-        "nesting depth <= 40 as in the property's quantifier, EXCEPT catch-in-catch and switch-in-switch nesting, which is sampled up to depth 6 (skeletons: 10) only: "
-        "their compile time is 2^depth (open finding F-C01-c, measured below); depth 40 of those is generated only with KNOWN_OPEN['F5']['on']",
+        "nesting depth <= 40 as in the property's quantifier (blocks, if, while, try-in-try, catch-in-catch, switch-in-switch, parentheses, indexing, unary operators); "
+        "the two depth-40 catch/switch programs of the corpus must each compile in < 5 s (they took 2^depth before fix 76f56ed)",
     ]
     res.cov["rule"] += (
         "C01: (A) every history of length 3 (thorough 4) over 26 table operations on 2 names (stream/file variant, recompile, run, exec, set file; sources accepted/parse error/compile error) "
         "+ seeded random walks over 4 names; (B) every loop skeleton of <= 4 (5) symbols over {break, continue, while, do, switch, try/catch}, the 98..102 boundary of both jump tables in 9 shapes, "
-        "depth 0..8 inside switch, seeded random skeletons; (C) arbitrary texts: targeted programs, fixed noise list, grammar-directed programs (depth <= 12, thorough also <= 40), token mutants "
-        "(delete/duplicate/swap/replace/stray keyword/unbalance/stray punctuation/split), thorough: every single-token deletion of 200 programs, random byte noise; 12 texts per engine, after each: "
-        "re-request, sentinel run, fresh compile+run, state of the text's script (accepted texts are not executed here).  non-trivial = an arbitrary text whose compilation finished in an allowed class with all six probes agreeing with the model, "
+        "depth 0..8 inside switch, seeded random skeletons; (C) arbitrary texts: targeted programs, fixed noise list, the ring-position family (11 peephole-sensitive shapes after 0..210 fillers x 2 parities, plain / in a switch body / in a catch block: every offset of the 100-slot prev_opcodes ring; required outcome ok), the NUL-byte family (a 0 byte inserted at / replacing every position of 9 seed texts, runs of 2 and 9 NULs, other control/high bytes at sampled positions), grammar-directed programs (depth <= 12, thorough also <= 40), token mutants "
+        "(delete/duplicate/swap/replace/stray keyword/unbalance/stray punctuation/split), thorough: every single-token deletion of 200 programs, random byte noise; the family rejected-by-the-emitting-pass (duplicate labels / case values: the only error raised by the program manager and not by the counting manager); developer mode on and off (alternating per case; targeted, fixed noise, NUL-byte, late-reject and corpus texts in both); 12 texts per engine, after each: "
+        "re-request, sentinel run, fresh compile+run, state of the text's script (accepted texts are not executed here), recompile=true of the same name from a valid source + run; at the end of every engine Reset(), sentinel absent, compiled and run again, and the context is destroyed inside the watched region.  non-trivial = an arbitrary text whose compilation finished in an allowed class with all six probes agreeing with the model, "
         "or a history/skeleton of >= 3 operations/symbols. ")
     # ---- translator
     try:
@@ -990,11 +1210,8 @@ def check(res, tier, seed):
     for smp in res.cov["samples"]:
         smp["ops"] = smp["ops"][:8]
 
-    # ---- catch-in-catch compile time (plain build: the asan build stops at finding F3)
-    try:
-        measure_catch_nesting(res)
-    except Exception as ex:          # a measurement, not a verdict
-        res.notes.append("catch nesting measurement failed: %r" % (ex,))
+    # ---- depth-40 catch/switch nesting within 5 s
+    check_nesting_time(res, exe)
 
     # ---- report
     reported = set()
@@ -1037,7 +1254,7 @@ def minimise(exe, drv, case, kind, why, cr, seed):
         # which text?
         culprit = None
         for name, b in case.inputs:
-            ok, cr2, il = same(single_text_case(b))
+            ok, cr2, il = same(single_text_case(b, case.dev))
             if ok:
                 culprit = (name, b, cr2)
                 break
@@ -1049,11 +1266,11 @@ def minimise(exe, drv, case, kind, why, cr, seed):
         name, b, cr2 = culprit
         runs = 25 if kind == "timeout" else 120
         try:
-            b = ddmin_bytes(b, lambda x: same(single_text_case(x))[0], max_runs=runs)
+            b = ddmin_bytes(b, lambda x: same(single_text_case(x, case.dev))[0], max_runs=runs)
         except Exception:
             pass
-        ok, cr2, il = same(single_text_case(b))
-        c2 = single_text_case(b)
+        ok, cr2, il = same(single_text_case(b, case.dev))
+        c2 = single_text_case(b, case.dev)
         stderr = (cr2 or {}).get("stderr", "")
         rec.update({"case": c2.to_json(), "text_hex": b.hex(), "text_repr": repr(b)[:2000], "text_name": name,
                     "impl_trace": il, "stderr": vlib._err_head(stderr)[-3000:]})
@@ -1077,8 +1294,7 @@ def minimise(exe, drv, case, kind, why, cr, seed):
         pass
     if len(ops) == 1 and ops[0][0] == "K":
         try:
-            tk = vlib.ddmin(list(ops[0][1]), lambda sub: same(XCase("s", [("K", sub)], "shrink"))[0], max_runs=80)
-            ops = [("K", tk)]
+            ops = [("K", skel_shrink(list(ops[0][1]), lambda sub: same(XCase("s", [("K", sub)], "shrink"))[0]))]
         except Exception:
             pass
     c2 = XCase("r", ops, "shrunk from " + case.origin)
@@ -1098,41 +1314,22 @@ def minimise(exe, drv, case, kind, why, cr, seed):
     return rec
 
 
-def measure_catch_nesting(res):
-    """compile time of catch-in-catch and switch-in-switch nesting, plain build (finding F5 / DESIGN F-C01-c)"""
-    import math
-    exe = vlib.build_harness("C01", ["harness/C01.cpp"], "plain", use_lib=True)
+def check_nesting_time(res, exe):
+    """the depth-40 catch-in-catch and switch-in-switch programs (2^depth before fix 76f56ed) compile in < 5 s each"""
     out = {}
     for kind in ("catch", "switch"):
-        times = {}
-        for d in range(10, 31, 2):
-            c = XCase("n", [("C", "1", 0, ("X", nest(kind, d).encode()))], kind + "-nesting")
-            t0 = time.time()
-            rc, o, e = vlib.sh([exe], inp=c.impl_text(), timeout=60)
-            dt = time.time() - t0
-            cls = [l for l in o.splitlines() if l.startswith("m C")]
-            times[d] = {"seconds": round(dt, 3), "outcome": cls[0][4:] if cls else "rc=%s" % rc}
-            if dt > 2.5:
-                break
-        rec = {"times": times}
-        ds = sorted(times)
-        a, b = ds[-2], ds[-1]
-        ta, tb = times[a]["seconds"], times[b]["seconds"]
-        if ta > 0.1 and tb / ta > 2.5:
-            per = (tb / ta) ** (1.0 / (b - a))
-            rec["growth_per_level"] = round(per, 2)
-            rec["depth_exceeding_20s"] = int(math.ceil(b + math.log(20.0 / tb) / math.log(per)))
-            rec["estimate_depth40_seconds"] = float("%.3g" % (tb * per ** (40 - b)))
-        out[kind] = rec
-    res.cov["nested_double_emission_compile_time"] = out
-    msgs = []
-    for kind, rec in out.items():
-        if "growth_per_level" in rec:
-            last = max(rec["times"])
-            msgs.append("%s-in-%s: %.2f s at depth %d, x%.2f per level, > 20 s from depth %d, ~%.3g s at depth 40" % (
-                kind, kind, rec["times"][last]["seconds"], last, rec["growth_per_level"], rec["depth_exceeding_20s"], rec["estimate_depth40_seconds"]))
-    if msgs:
-        res.known_finding(KNOWN_OPEN["F5"]["what"] + " [measured, plain build: " + "; ".join(msgs) + "]")
+        b = nest(kind, 40).encode()
+        c = single_text_case(b)
+        t0 = time.time()
+        io, icr = run_impl(exe, [c], timeout=60)
+        dt = time.time() - t0
+        cls = impl_class(io[c.id][2]) if c.id in io and len(io[c.id]) > 2 else "no-output"
+        out[kind + "-in-" + kind + "-depth40"] = {"seconds": round(dt, 3), "outcome": cls}
+        if c.id in icr or dt >= 5.0 or cls != "ok":
+            res.violation({"property": CID, "unit": "C01", "kind": "timeout" if dt >= 5.0 else "outcome-expected", "case": c.to_json(),
+                           "text_repr": repr(b)[:400], "signature": "nesting-time:" + kind,
+                           "why": "%s-in-%s nested 40 deep must compile (outcome ok) in < 5 s: took %.1f s, outcome %s" % (kind, kind, dt, cls)})
+    res.cov["nesting_depth40_compile_time"] = out
 
 
 def replay(path):
